@@ -5,10 +5,11 @@ import Nstd.Variant.DeepWalk
 namespace Nstd.Variant.Deep
 open Nstd.Variant
 
-/-- typed assignment of a temporary List / Array -/
+/-- typed assignment of a temporary List / Array / HashMap -/
 def setsSeq : LeafS → Bool
   | .set (.list _) => true
   | .set (.array _) => true
+  | .set (.map _) => true
   | _ => false
 
 /-- the operations covered by the deep refinement theorem (any nesting of the values, any path;
@@ -292,7 +293,7 @@ theorem dstep_refines (ds : DblSem) {s : DState} {σ σ' : Store} (hg : DGood s 
                   | lit x => simp [LeafS.vars, ValS.vars] at hin
                   | list l => exact hseq rfl hin
                   | array l => exact hseq rfl hin
-                  | map m => exact hls
+                  | map m => exact hseq rfl hin
                 | clear => simp [LeafS.vars] at hin
                 | touch k => simp [LeafS.vars] at hin
                 | lapp src => simp [mutOk, hcon] at hm; exact hm hin
